@@ -92,3 +92,11 @@ CHECKS["C03"] = (
     "Trusted: vf/ref.py, vf/matref.py (float64 QR/eigh); exactly-diagonal factors may yield the identity basis (documented fast path).",
     "DESIGN.md 3 C03",
 )
+
+CHECKS["C13"] = (
+    "fault_enumeration",
+    "runtime monitoring with fault injection: scripted failures / NaN / Inf delivered at the matrix-routine names the preconditioner lists call, NaN/Inf gradients; shadow failure counter per block identity, bitwise root snapshots, byte snapshots of parameters",
+    "Bounded-exhaustive family: two blocks, every one of the 2^6 fail/succeed scripts of one block x 2^6 presence scripts of the other over 6 refreshes, for N in 0..3, Shampoo and SOAP, both listing orders (thorough: all 4096 pairs per combination = 65k runs; quick: 4k sampled runs); random family: 2-4 blocks, per-factor failures of several exception classes, bursts, blocks entering/leaving, frequency 1..3; poison family: NaN/Inf gradients at and off refresh steps, routine returning NaN/Inf, root overflowing its (float16) storage dtype. After every step: expected raise iff an active block's shadow count exceeds N (and not the NaN/Inf class), a failed factor keeps its previous matrix bit-for-bit, a successful one holds exactly what its computation returned, NaN/Inf at a refresh raises PreconditionerValueError with the group's parameters byte-identical and all stored roots/bases finite. Counters of delivered faults make a run with an unreached wrapper inconclusive.",
+    "Trusted: the wrapper identifies (block, factor) by the (pairwise distinct) matrix size, not by call order; refresh steps computed by the harness from the documented schedule.",
+    "DESIGN.md 3 C13, 2 E6",
+)
